@@ -4,16 +4,15 @@ package models
 
 import "time"
 
-// After models time.After in untimed mode: the timer may fire at any moment, so the
-// channel is ready from the start; the scheduler explores "fires before / after
-// everything else" through the interleavings of the receiving select.
+// timerChan is an engine intrinsic: a channel holding one value from the start (the timer may fire at
+// any moment); receiving from it advances the symbolic clock to at least now+d.
+func timerChan(d time.Duration) chan time.Time { return nil }
+
+// After models time.After: the scheduler explores "fires before / after everything else" through
+// the interleavings of the receiving select; elapsed time is tracked on the symbolic clock.
 //
 //verif:model time.After
-func After(d time.Duration) <-chan time.Time {
-	ch := make(chan time.Time, 1)
-	ch <- time.Time{}
-	return ch
-}
+func After(d time.Duration) <-chan time.Time { return timerChan(d) }
 
 //verif:model time.Since
 func Since(t time.Time) time.Duration { return time.Now().Sub(t) }
